@@ -204,6 +204,59 @@ def classify_bytes(g, gfl, l, allow_empty_const=False):
     return "computed:" + ",".join(c.rsplit("::", 1)[-1] for c in other) if other else "?"
 
 
+def check_roundtrip_guard(prog, R, rule, keyprefix):
+    """convert_from_clvm_rs may present an atom as SExp::Integer only when re-encoding that integer with the crate's
+    normaliser (u8_from_number, the function convert_to_clvm_rs and the hashes use) gives back the atom's bytes: the
+    Integer construction must be dominated by the TRUE edge of `u8_from_number(n) == atom bytes` where n is the integer
+    being constructed.  A byte-pattern test in its place is an unchecked re-implementation of the encoder."""
+    CF = "compiler::clvm::convert_from_clvm_rs"
+    f0 = prog.fn(CF)
+    if f0 is None:
+        R.viol(rule, "%s|anchor-lost|convert_from_clvm_rs" % keyprefix, "compiler::clvm", "anchor lost: convert_from_clvm_rs")
+        return
+    f = inline.inlined(prog, f0, pred=lambda g: g.parent == f0.parent and g.kind in ("Fn", "AssocFn") and len(g.blocks) <= 120
+                       and g.path not in NO_INLINE and not g.path.endswith("::printable"), depth=2)
+    fl = Flow(f)
+    ints = [(bb, st) for bb, _, st in f.stmts() if st["rv"]["k"] == "agg" and st["rv"].get("variant") == "Integer"
+            and "sexp::SExp" in st["rv"].get("adt", "")]
+    if not ints:
+        R.ob(rule, "%s|no-integer-presentation" % keyprefix, "%s:%s" % (f0.file, f0.line), "auto: convert_from_clvm_rs never builds SExp::Integer")
+        return
+    guards = []
+    for bb, t in f.calls():
+        c = callee_of(t) or ""
+        if not (c.endswith("::eq") or c.endswith("::ne")):
+            continue
+        ls = [op_local(a) for a in t["args"] if op_local(a) is not None]
+        enc = [l for l in ls if fl.derives_from_call(l, lambda cc: cc.endswith("util::u8_from_number"))]
+        raw = [l for l in ls if fl.derives_from_call(l, lambda cc: cc.endswith("Allocator::atom")) and l not in enc]
+        if enc and raw:
+            nxt = t.get("target")
+            sw = f.term(nxt) if nxt is not None else None
+            if sw and sw["k"] == "switch":
+                arms = dict((v, x) for v, x in sw["arms"])
+                true_b = sw["otherwise"] if 0 in arms else arms.get(1)
+                false_b = arms.get(0, sw["otherwise"])
+                if c.endswith("::ne"):
+                    true_b, false_b = false_b, true_b
+                guards.append((bb, true_b, false_b, enc))
+    for bb, st in ints:
+        nl = op_local(st["rv"]["ops"][-1])
+        ok = False
+        for gb, tb, fb, enc in guards:
+            if tb is None:
+                continue
+            region = f.reachable(tb, avoid=[fb] if fb is not None else ())
+            same_number = nl is not None and any(set(fl.back_pure([nl])) & set(fl.back_pure([e])) - set(range(0, f.argc + 1)) for e in enc)
+            if bb in region and bb not in f.reachable(fb, avoid=[tb]) and same_number:
+                ok = True
+        R.check(ok, rule, "%s|integer-only-if-reencoding-matches" % keyprefix, "%s:%s" % (f0.file, st.get("line", f0.line)),
+                "auto: SExp::Integer is built only on the true edge of u8_from_number(n) == the atom's bytes",
+                "convert_from_clvm_rs presents an atom as SExp::Integer without the guard `u8_from_number(n) == atom bytes` on the "
+                "same number: an atom whose bytes are not the minimal encoding of its value (redundant 0x00 / 0xff) would come back "
+                "shorter, and the rich form's hash would differ from the CLVM form's", fn=CF)
+
+
 def run(tier="quick", replay=None):
     R = Report(PID, tier,
                "PARTIAL claim. Sibling agreement of the crate's three tree-hash implementations, recovered from MIR as the "
@@ -288,6 +341,8 @@ def run(tier="quick", replay=None):
                 "auto: %s never decides nil-ness with the mode-unaware SExp::nilp" % root,
                 "%s decides nil-ness with SExp::nilp(), which is true for Integer 0 in both integer modes: in legacy mode the atom "
                 "0x00 (Integer 0 after conversion from CLVM) would be encoded/hashed as the empty atom" % root, fn=root)
+
+    check_roundtrip_guard(prog, R, "R07.rt", "R07.rt")
 
     # ---------------- R07.hash ------------------------------------------------------------
     # k1 == k2 must imply hash(k1) == hash(k2): SExp::equal_to ignores locations / spelling and compares atoms by their
